@@ -323,10 +323,11 @@ func cidMatches(c, data []byte) (match, known bool) {
 	switch vals[2] {
 	case 0x12:
 		h := sha256.Sum256(data)
-		if len(digest) != 32 {
+		if len(digest) == 0 || len(digest) > 32 {
 			return false, false
 		}
-		return bytes.Equal(digest, h[:]), true
+		// (a shorter digest is the truncated hash: a self-consistent, if weak, label)
+		return bytes.Equal(digest, h[:len(digest)]), true
 	case 0x13:
 		h := sha512.Sum512(data)
 		if len(digest) != 64 {
@@ -765,6 +766,44 @@ func (e *containerExec) one(s *CStep) {
 		} else {
 			setData(flipBit(getData(), s.Pos), false)
 		}
+	case "weak_label":
+		// every block under a self-consistent but WEAK label (sha2-256 truncated to one byte), read
+		// once as it stands; then the same labels with, in one block, other bytes that hash to the
+		// same label (the genuine token with its signature damaged): what an earlier read saw
+		// under a label says nothing about what this file holds under it
+		if isCar && n > 0 {
+			weak := func(d []byte) []byte {
+				h := sha256.Sum256(d)
+				return []byte{0x01, 0x71, 0x12, 0x01, h[0]}
+			}
+			for i := range car.Blocks {
+				car.Blocks[i].CID = weak(car.Blocks[i].Data)
+			}
+			prime := car.Bytes()
+			if isB64 {
+				prime = b64(prime)
+			}
+			pex := e.expect(s.Format, prime, false)
+			var prd container.Reader
+			var perr error
+			if !guard(o, "container.From:"+s.Format, func() { prd, perr = readContainerVariant(s.Format, s.RStream, s.Chunks, prime) }) {
+				ps := *s
+				ps.Fault = "weak_label_genuine"
+				e.judge(&ps, prd, perr, pex, variant)
+			}
+			d := car.Blocks[idx].Data
+			want := weak(d)[4]
+			for k := 0; k < 4096; k++ {
+				// positions inside the signature bytes (after the 2-byte list / byte-string heads)
+				m := flipBit(d, 24+(s.Pos+k)%(60*8))
+				if h := sha256.Sum256(m); h[0] == want {
+					car.Blocks[idx].Data = m
+					break
+				}
+			}
+		} else {
+			setData(flipBit(getData(), s.Pos), false)
+		}
 	case "foreign_entry":
 		d := cbArray(cbBytes([]byte{1, 2, 3}), cbMap(cbText("h"), cbBytes([]byte{0x34}), cbText("x"), cbInt(int64(s.Pos)))).Encode()
 		if s.Pos%2 == 0 {
@@ -1027,7 +1066,7 @@ func genContainer(r *Rand, g GenCfg) Plan {
 	for i := r.Range(1, 3); i > 0; i-- {
 		p.Steps = append(p.Steps, CStep{Op: "roundtrip", Format: Pick(r, containerAPIs()), WStream: r.Chance(0.5), RStream: r.Chance(0.5), Chunks: mkChunks(), Perm: r.Perm(n)})
 	}
-	faults := []string{"bad_frame", "hostile_len", "data_flip", "data_flip", "data_flip_relabel", "data_flip_relabel", "cid_flip", "swap_cids", "foreign_entry", "dup_entry", "drop_byte", "len_flip", "version_flip", "trunc", "trailing", "text_flip", "edge_trunc", "edge_trunc", "edge_bad", "edge_bad", "alias_cid", "alias_cid"}
+	faults := []string{"bad_frame", "hostile_len", "data_flip", "data_flip", "data_flip_relabel", "data_flip_relabel", "cid_flip", "swap_cids", "foreign_entry", "dup_entry", "drop_byte", "len_flip", "version_flip", "trunc", "trailing", "text_flip", "edge_trunc", "edge_trunc", "edge_bad", "edge_bad", "alias_cid", "alias_cid", "weak_label", "weak_label"}
 	for i := r.Range(2, 12); i > 0; i-- {
 		pos := r.Intn(1 << 13)
 		if r.Chance(0.3) {
